@@ -8,7 +8,7 @@
 EXTENDS Helpers, Json, IOUtils
 TraceFile == JsonDeserialize(IOEnv.TRACE_FILE)
 Traces == TraceFile.traces
-VARIABLE tid
+VARIABLES tid, done
 
 FirstBad(cs) == LET bad == {j \in DOMAIN cs : cs[j] # ""} IN IF bad = {} THEN "" ELSE cs[Min(bad)]
 
@@ -50,8 +50,10 @@ Clause(t) ==
                       IF C17_PreOrder(S) THEN "" ELSE "INV.C17_PreOrder",
                       IF C17_MsgOfType(S) THEN "" ELSE "INV.C17_MsgOfType" >>)
 
-TInit == tid \in DOMAIN Traces
-TNext == UNCHANGED tid
-TraceSpec == TInit /\ [][TNext]_tid
-Verdict == PrintT(<<"ACC", tid, Clause(Traces[tid])>>)
+\* the verdict is computed on the successor state, i.e. by a TLC worker thread (whose Java stack size the harness sets:
+\* the transcriptions are recursive scans and the lists taken from programs are long)
+TInit == tid \in DOMAIN Traces /\ done = FALSE
+TNext == ~done /\ done' = TRUE /\ UNCHANGED tid
+TraceSpec == TInit /\ [][TNext]_<<tid, done>>
+Verdict == done => PrintT(<<"ACC", tid, Clause(Traces[tid])>>)
 =============================================================================
